@@ -129,3 +129,700 @@ Proof.
   f_equal. apply map_ext_in. intros u Hu. rewrite forallb_forall in V. specialize (V u Hu).
   destruct u; [reflexivity|discriminate V].
 Qed.
+
+(* --------------------------------------------- strings: parse (escape s) *)
+Definition pcont (f : nat) (u rest : bytes) : option (bytes * bytes) :=
+  match parse_str f rest with
+  | Some (t, r') => Some (u ++ t, r')
+  | None => None
+  end.
+
+Lemma ps_quote f r : parse_str (S f) (34%N :: r) = Some ([], r).
+Proof. reflexivity. Qed.
+
+Lemma ps_esc f e b r : (e =? 117)%N = false -> simple_escape e = Some b ->
+  parse_str (S f) (92%N :: e :: r) = pcont f [b] r.
+Proof. intros E S. cbn [parse_str]. cbn [N.eqb Pos.eqb]. rewrite E, S. reflexivity. Qed.
+
+Lemma ps_u f a b c d r cp : parse_hex4 (a :: b :: c :: d :: r) = Some (cp, r) ->
+  in_rng 55296 56319 cp = false -> in_rng 56320 57343 cp = false ->
+  parse_str (S f) (92%N :: 117%N :: a :: b :: c :: d :: r) = pcont f (utf8_encode cp) r.
+Proof.
+  intros H S1 S2. cbn [parse_str]. cbn [N.eqb Pos.eqb]. rewrite H, S1, S2. reflexivity.
+Qed.
+
+Lemma ps_raw f c r k : (c =? 34)%N = false -> (c =? 92)%N = false -> (c <? 32)%N = false ->
+  utf8_seq (c :: r) = S k -> parse_str (S f) (c :: r) = pcont f (c :: firstn k r) (skipn k r).
+Proof. intros E1 E2 E3 U. cbn [parse_str]. rewrite E1, E2, E3, U. reflexivity. Qed.
+
+Lemma N_lt_cases n (P : N -> Prop) :
+  (forall k, (k < n)%nat -> P (N.of_nat k)) -> forall c, (c < N.of_nat n)%N -> P c.
+Proof. intros H c L. rewrite <- (N2Nat.id c). apply H. lia. Qed.
+
+Lemma hexv_hexdig x : (x < 16)%N -> hexv (hexdig x) = Some x.
+Proof.
+  revert x. apply (N_lt_cases 16). intros k L.
+  do 16 (destruct k as [|k]; [vm_compute; reflexivity|]). lia.
+Qed.
+
+Lemma parse_hex4_00 c r : (c < 32)%N ->
+  parse_hex4 (48%N :: 48%N :: hexdig (c / 16) :: hexdig (c mod 16) :: r) = Some (c, r).
+Proof.
+  intro L. unfold parse_hex4.
+  rewrite (hexv_hexdig (c / 16)) by (apply N.div_lt_upper_bound; lia).
+  rewrite (hexv_hexdig (c mod 16)) by (apply N.mod_lt; lia).
+  change (hexv 48) with (Some 0%N). cbv iota beta. f_equal. f_equal.
+  rewrite (N.div_mod c 16) at 3 by lia. lia.
+Qed.
+
+Lemma esc_ascii_parse f c r : (c <? 128)%N = true ->
+  parse_str (S f) (esc_ascii c ++ r) = pcont f [c] r.
+Proof.
+  intro A. apply N.ltb_lt in A. unfold esc_ascii.
+  destruct (c =? 34)%N eqn:E1; [apply N.eqb_eq in E1; subst; apply ps_esc; reflexivity|].
+  destruct (c =? 92)%N eqn:E2; [apply N.eqb_eq in E2; subst; apply ps_esc; reflexivity|].
+  destruct (c =? 10)%N eqn:E3; [apply N.eqb_eq in E3; subst; apply ps_esc; reflexivity|].
+  destruct (c =? 13)%N eqn:E4; [apply N.eqb_eq in E4; subst; apply ps_esc; reflexivity|].
+  destruct (c =? 9)%N eqn:E5; [apply N.eqb_eq in E5; subst; apply ps_esc; reflexivity|].
+  destruct (c <? 32)%N eqn:E6.
+  - apply N.ltb_lt in E6. cbn [app].
+    rewrite (ps_u f 48%N 48%N (hexdig (c / 16)) (hexdig (c mod 16)) r c).
+    + unfold utf8_encode. assert (T : (c <? 128)%N = true) by (apply N.ltb_lt; lia). rewrite T. reflexivity.
+    + apply parse_hex4_00; exact E6.
+    + unfold in_rng. assert (T : (55296 <=? c)%N = false) by (apply N.leb_gt; lia). rewrite T. reflexivity.
+    + unfold in_rng. assert (T : (56320 <=? c)%N = false) by (apply N.leb_gt; lia). rewrite T. reflexivity.
+  - cbn [app]. rewrite (ps_raw f c r 0); try assumption; [reflexivity|].
+    apply utf8_seq_ascii. apply N.ltb_lt; exact A.
+Qed.
+
+Lemma esc_unit_parse f u r : unit_wf u ->
+  parse_str (S f) (esc_unit u ++ r) = pcont f (coerce_unit u) r.
+Proof.
+  intro W. destruct u as [w|b].
+  - cbn [esc_unit coerce_unit]. destruct w as [|c w']; [destruct W|]. cbn [unit_wf] in W.
+    destruct W as [[A E]|(A & NE & S)].
+    + subst w'. apply esc_ascii_parse; exact A.
+    + destruct w' as [|c1 w'']; [congruence|].
+      destruct (is_ls (c :: c1 :: w'')) eqn:L1.
+      { apply bytes_eqb_eq in L1. rewrite L1. apply (ps_u f 50%N 48%N 50%N 56%N r 8232%N); reflexivity. }
+      destruct (is_ps (c :: c1 :: w'')) eqn:L2.
+      { apply bytes_eqb_eq in L2. rewrite L2. apply (ps_u f 50%N 48%N 50%N 57%N r 8233%N); reflexivity. }
+      specialize (S r). rewrite <- app_comm_cons.
+      assert (E1 : (c =? 34)%N = false) by (apply N.eqb_neq; lia).
+      assert (E2 : (c =? 92)%N = false) by (apply N.eqb_neq; lia).
+      assert (E3 : (c <? 32)%N = false) by (apply N.ltb_ge; lia).
+      rewrite (ps_raw f c ((c1 :: w'') ++ r) (length (c1 :: w'')) E1 E2 E3 S).
+      rewrite firstn_app, Nat.sub_diag, firstn_all, firstn_O, app_nil_r.
+      rewrite skipn_app, Nat.sub_diag, skipn_all, skipn_O. reflexivity.
+  - cbn [esc_unit coerce_unit]. apply (ps_u f 102%N 102%N 102%N 100%N r 65533%N); reflexivity.
+Qed.
+
+Lemma parse_str_units us : forall fuel rest, Forall unit_wf us -> (length us < fuel)%nat ->
+  parse_str fuel (concat (map esc_unit us) ++ quote :: rest) = Some (concat (map coerce_unit us), rest).
+Proof.
+  induction us as [|u us IH]; intros fuel rest W L.
+  - destruct fuel as [|f]; [cbn in L; lia|]. reflexivity.
+  - destruct fuel as [|f]; [cbn in L; lia|]. inversion W as [|? ? Wu Wus]; subst.
+    cbn [map concat]. rewrite <- app_assoc. rewrite esc_unit_parse by exact Wu.
+    unfold pcont. rewrite IH; [reflexivity|exact Wus|cbn in L; lia].
+Qed.
+
+Lemma units_length fuel : forall s, (length (units fuel s) <= length s)%nat.
+Proof.
+  induction fuel as [|f IH]; intro s; [cbn; lia|]. cbn [units].
+  destruct s as [|b r]; [cbn; lia|]. destruct (utf8_seq (b :: r)) as [|k]; cbn [length].
+  - specialize (IH r). lia.
+  - specialize (IH (skipn k r)). rewrite skipn_length in IH. lia.
+Qed.
+
+Lemma esc_unit_nonempty u : unit_wf u -> (1 <= length (esc_unit u))%nat.
+Proof.
+  destruct u as [w|b]; [|cbn; lia]. cbn [unit_wf esc_unit]. destruct w as [|c w']; [intros []|]. intros _.
+  destruct w' as [|c1 w''].
+  - unfold esc_ascii. repeat match goal with |- context [if ?c then _ else _] => destruct c end; cbn; lia.
+  - destruct (is_ls _); [cbn; lia|]. destruct (is_ps _); cbn; lia.
+Qed.
+
+Lemma esc_units_length us : Forall unit_wf us -> (length us <= length (concat (map esc_unit us)))%nat.
+Proof.
+  induction 1 as [|u us Wu _ IH]; [cbn; lia|]. cbn [map concat length]. rewrite app_length.
+  pose proof (esc_unit_nonempty u Wu). lia.
+Qed.
+
+(* the string body as the parser is called on it: fuel = 1 + length of the input *)
+Lemma parse_str_esc s rest :
+  parse_str (S (length (esc_string s ++ quote :: rest))) (esc_string s ++ quote :: rest) = Some (coerce s, rest).
+Proof.
+  unfold esc_string, coerce. apply parse_str_units; [apply units_wf|].
+  rewrite app_length. pose proof (esc_units_length (segs s) (units_wf _ _)). lia.
+Qed.
+
+(* ---------------------------------------------- plain text inside quotes *)
+Definition plain (c : N) : Prop := (32 <= c < 128)%N /\ c <> 34%N /\ c <> 92%N.
+
+Lemma parse_str_plain t : forall fuel rest, Forall plain t -> (length t < fuel)%nat ->
+  parse_str fuel (t ++ quote :: rest) = Some (t, rest).
+Proof.
+  induction t as [|c t IH]; intros fuel rest P L.
+  - destruct fuel as [|f]; [cbn in L; lia|]. reflexivity.
+  - destruct fuel as [|f]; [cbn in L; lia|]. inversion P as [|? ? (R & N1 & N2) Pt]; subst.
+    cbn [app]. rewrite (ps_raw f c (t ++ quote :: rest) 0).
+    + unfold pcont. cbn [firstn skipn]. rewrite IH; [reflexivity|exact Pt|cbn in L; lia].
+    + apply N.eqb_neq; exact N1.
+    + apply N.eqb_neq; exact N2.
+    + apply N.ltb_ge; lia.
+    + apply utf8_seq_ascii. apply N.ltb_lt; lia.
+Qed.
+
+Lemma plain_dig z : plain (dig z).
+Proof.
+  unfold plain, dig. pose proof (Z.mod_pos_bound z 10 ltac:(lia)) as B.
+  assert (Z.to_N (z mod 10) < 10)%N by lia. lia.
+Qed.
+
+Ltac plain_tac :=
+  repeat first
+    [ apply Forall_nil
+    | apply Forall_cons; [first [apply plain_dig | (unfold plain; lia)]|]
+    | apply Forall_app; split ].
+
+Lemma plain_dig2 z : Forall plain (dig2 z). Proof. unfold dig2. plain_tac. Qed.
+Lemma plain_dig4 z : Forall plain (dig4 z). Proof. unfold dig4. plain_tac. Qed.
+
+Lemma plain_strip r : Forall plain r -> Forall plain (strip_zeros_rev r).
+Proof.
+  induction r as [|c t IH]; intro P; [constructor|]. cbn [strip_zeros_rev].
+  destruct (c =? 48)%N; [apply IH; inversion P; assumption|exact P].
+Qed.
+Lemma plain_rev r : Forall plain r -> Forall plain (rev r).
+Proof. intro P. apply Forall_forall. intros x Hx. apply in_rev in Hx. rewrite Forall_forall in P. apply P; exact Hx. Qed.
+
+Lemma plain_frac n : Forall plain (frac_text n).
+Proof.
+  unfold frac_text. destruct (n =? 0); [constructor|].
+  apply Forall_cons; [unfold plain; lia|]. apply plain_rev, plain_strip, plain_rev. plain_tac.
+Qed.
+
+Lemma plain_zone o : Forall plain (zone_text o).
+Proof.
+  unfold zone_text. destruct (o =? 0); [plain_tac|].
+  destruct (Z.quot o 60 <? 0); (apply Forall_cons; [unfold plain; lia|]);
+  (apply Forall_app; split; [apply plain_dig2|apply Forall_cons; [unfold plain; lia|apply plain_dig2]]).
+Qed.
+
+Lemma plain_date s n o : Forall plain (date_text s n o).
+Proof.
+  unfold date_text. destruct (rdn_to_ymd _) as [[y m] d].
+  repeat first [ apply Forall_app; split | apply plain_dig4 | apply plain_dig2 | apply plain_frac | apply plain_zone
+               | apply Forall_cons; [unfold plain; lia|] ].
+Qed.
+
+Lemma plain_b64_char i : plain (b64_char i).
+Proof.
+  unfold plain, b64_char.
+  destruct (i <? 26)%N eqn:E1; [apply N.ltb_lt in E1; lia|apply N.ltb_ge in E1].
+  destruct (i <? 52)%N eqn:E2; [apply N.ltb_lt in E2; lia|apply N.ltb_ge in E2].
+  destruct (i <? 62)%N eqn:E3; [apply N.ltb_lt in E3; lia|apply N.ltb_ge in E3].
+  destruct (i =? 62)%N; lia.
+Qed.
+
+From Ferret Require Import Proofs.CodecBase64Proofs.
+Open Scope Z_scope.
+
+Lemma plain_b64 s : Forall plain (b64_encode s).
+Proof.
+  induction s as [|a|a b|a b c r IH] using list_ind3; cbn [b64_encode].
+  - constructor.
+  - repeat (apply Forall_cons; [first [apply plain_b64_char | (unfold plain, b64_pad; lia)]|]). constructor.
+  - repeat (apply Forall_cons; [first [apply plain_b64_char | (unfold plain, b64_pad; lia)]|]). constructor.
+  - repeat (apply Forall_cons; [apply plain_b64_char|]). exact IH.
+Qed.
+
+(* ----------------------------------------------------------------- numbers *)
+Definition digitP (c : N) : Prop := (48 <= c <= 57)%N.
+Definition dstep (a : Z) (d : N) : Z := a * 10 + Z.of_N (d - 48).
+
+Lemma is_digit_true c : digitP c -> is_digit c = true.
+Proof. unfold digitP, is_digit, in_rng. intro H. apply andb_true_intro. split; apply N.leb_le; lia. Qed.
+
+Lemma dec_go_S f n acc : dec_go (S f) n acc =
+  if (n <? 10)%N then (48 + n)%N :: acc else dec_go f (n / 10)%N ((48 + n mod 10)%N :: acc).
+Proof. reflexivity. Qed.
+
+Lemma dec_go_spec f : forall n acc, (n < 10 ^ N.of_nat (S f))%N ->
+  exists ds, dec_go (S f) n acc = ds ++ acc /\ Forall digitP ds /\ ds <> [] /\
+    (forall a, fold_left dstep ds a = a * 10 ^ Z.of_nat (length ds) + Z.of_N n) /\
+    (hd 0%N ds = 48%N -> ds = [48%N]).
+Proof.
+  induction f as [|f IH]; intros n acc L.
+  - change (10 ^ N.of_nat 1)%N with 10%N in L. cbn [dec_go].
+    assert (E : (n <? 10)%N = true) by (apply N.ltb_lt; exact L). rewrite E.
+    exists [(48 + n)%N]. split; [reflexivity|]. split; [constructor; [unfold digitP; lia|constructor]|].
+    split; [discriminate|]. split.
+    + intro a. cbn [fold_left length]. unfold dstep. change (10 ^ Z.of_nat 1) with 10. lia.
+    + cbn [hd]. intro H. f_equal. exact H.
+  - rewrite dec_go_S. destruct (n <? 10)%N eqn:E.
+    + apply N.ltb_lt in E. exists [(48 + n)%N]. split; [reflexivity|].
+      split; [constructor; [unfold digitP; lia|constructor]|]. split; [discriminate|]. split.
+      * intro a. cbn [fold_left length]. unfold dstep. change (10 ^ Z.of_nat 1) with 10. lia.
+      * cbn [hd]. intro H. f_equal. exact H.
+    + apply N.ltb_ge in E.
+      assert (Lq : (n / 10 < 10 ^ N.of_nat (S f))%N).
+      { apply N.div_lt_upper_bound; [lia|]. rewrite <- N.pow_succ_r'. rewrite <- Nat2N.inj_succ. exact L. }
+      destruct (IH (n / 10)%N ((48 + n mod 10)%N :: acc) Lq) as (ds & Eds & Fd & Ne & Val & Hd).
+      exists (ds ++ [(48 + n mod 10)%N]). split; [rewrite Eds, <- app_assoc; reflexivity|].
+      pose proof (N.mod_lt n 10 ltac:(lia)) as Bm.
+      split; [apply Forall_app; split; [exact Fd|constructor; [unfold digitP; lia|constructor]]|].
+      split; [destruct ds; discriminate|]. split.
+      * intro a. rewrite fold_left_app, Val. cbn [fold_left]. unfold dstep.
+        rewrite app_length. cbn [length]. rewrite Nat.add_1_r, Nat2Z.inj_succ, Z.pow_succ_r by lia.
+        pose proof (N.div_mod n 10 ltac:(lia)) as D.
+        assert (Z.of_N n = 10 * Z.of_N (n / 10) + Z.of_N (n mod 10)) by lia.
+        replace (Z.of_N (48 + n mod 10 - 48)) with (Z.of_N (n mod 10)) by lia. lia.
+      * destruct ds as [|d0 ds']; [congruence|]. cbn [hd app]. intro H0.
+        exfalso. cbn [hd] in Hd. specialize (Hd H0). injection Hd as Hd. subst ds'.
+        specialize (Val 0). cbn [fold_left length] in Val. unfold dstep in Val. subst d0.
+        change (10 ^ Z.of_nat 1) with 10 in Val.
+        assert (n / 10 = 0)%N by lia. assert (n < 10)%N; [|lia].
+        apply N.div_small_iff in H; lia.
+Qed.
+
+Lemma dec_N_spec n : exists ds, dec_N n = ds /\ Forall digitP ds /\ ds <> [] /\
+  digits_val ds = Z.of_N n /\ (hd 0%N ds = 48%N -> ds = [48%N]).
+Proof.
+  unfold dec_N.
+  assert (L : (n < 10 ^ N.of_nat (S (N.to_nat (N.log2 n))))%N).
+  { rewrite Nat2N.inj_succ, N2Nat.id. destruct (N.eq_dec n 0) as [->|NZ]; [vm_compute; reflexivity|].
+    pose proof (N.log2_spec n ltac:(lia)) as [_ U].
+    eapply N.lt_le_trans; [exact U|]. apply N.pow_le_mono_l. lia. }
+  destruct (dec_go_spec _ n [] L) as (ds & E & Fd & Ne & Val & Hd).
+  exists ds. rewrite app_nil_r in E. split; [exact E|]. split; [exact Fd|]. split; [exact Ne|]. split; [|exact Hd].
+  unfold digits_val. change (fun a d => a * 10 + Z.of_N (d - 48)) with dstep. rewrite Val. lia.
+Qed.
+
+Definition num_end (rest : bytes) : Prop :=
+  match rest with
+  | [] => True
+  | c :: _ => is_digit c = false /\ (c =? 46)%N = false /\ (c =? 101)%N = false /\ (c =? 69)%N = false
+  end.
+
+Lemma take_digits_app ds rest : Forall digitP ds -> num_end rest -> take_digits (ds ++ rest) = (ds, rest).
+Proof.
+  intros Fd Ne. induction Fd as [|d ds Hd _ IH].
+  - cbn [app]. destruct rest as [|c r]; [reflexivity|]. cbn [take_digits]. destruct Ne as (E & _). rewrite E. reflexivity.
+  - cbn [app take_digits]. rewrite (is_digit_true d Hd), IH. reflexivity.
+Qed.
+
+Lemma parse_unsigned_digits (neg : bool) ds rest : Forall digitP ds -> ds <> [] ->
+  (hd 0%N ds = 48%N -> ds = [48%N]) -> num_end rest ->
+  parse_unsigned neg (ds ++ rest) = Some ((if neg then - digits_val ds else digits_val ds), 0, rest).
+Proof.
+  intros Fd Ne Hd En. unfold parse_unsigned. rewrite (take_digits_app ds rest Fd En).
+  destruct ds as [|d0 ds']; [congruence|].
+  assert (LZ : (d0 =? 48)%N && negb (Json.is_nil ds') = false).
+  { destruct (d0 =? 48)%N eqn:E; [|reflexivity]. apply N.eqb_eq in E. cbn [hd] in Hd. specialize (Hd E).
+    injection Hd as Hd. subst ds'. reflexivity. }
+  cbv beta iota. rewrite LZ. destruct rest as [|c r].
+  - cbn [negb]. rewrite app_nil_r. reflexivity.
+  - destruct En as (E0 & E1 & E2 & E3). rewrite E1. cbn [negb]. rewrite E2, E3. cbn [orb negb].
+    rewrite app_nil_r. reflexivity.
+Qed.
+
+Lemma parse_number_digits (neg : bool) ds rest : Forall digitP ds -> ds <> [] ->
+  (hd 0%N ds = 48%N -> ds = [48%N]) -> num_end rest ->
+  parse_number ((if neg then [45%N] else []) ++ ds ++ rest)
+  = Some ((if neg then - digits_val ds else digits_val ds), 0, rest).
+Proof.
+  intros Fd Ne Hd En. destruct neg; cbn [app].
+  - unfold parse_number. cbn [N.eqb Pos.eqb]. apply parse_unsigned_digits; assumption.
+  - destruct ds as [|d0 ds']; [congruence|]. unfold parse_number. cbn [app].
+    assert (D0 : digitP d0) by (inversion Fd; assumption).
+    assert (N45 : (d0 =? 45)%N = false) by (apply N.eqb_neq; unfold digitP in D0; lia).
+    rewrite N45. apply (parse_unsigned_digits false (d0 :: ds') rest); assumption.
+Qed.
+
+Lemma parse_number_dec_Z z rest : num_end rest -> parse_number (dec_Z z ++ rest) = Some (z, 0, rest).
+Proof.
+  intro En. unfold dec_Z. destruct (z <? 0) eqn:E.
+  - apply Z.ltb_lt in E. destruct (dec_N_spec (Z.to_N (- z))) as (ds & Eds & Fd & Ne & Val & Hd).
+    rewrite Eds. change (45%N :: ds) with ([45%N] ++ ds). rewrite <- app_assoc.
+    rewrite (parse_number_digits true ds rest Fd Ne Hd En). rewrite Val. f_equal. f_equal. f_equal. lia.
+  - apply Z.ltb_ge in E. destruct (dec_N_spec (Z.to_N z)) as (ds & Eds & Fd & Ne & Val & Hd).
+    rewrite Eds. change (ds ++ rest) with ([] ++ ds ++ rest). rewrite (parse_number_digits false ds rest Fd Ne Hd En). rewrite Val. f_equal. f_equal. f_equal. lia.
+Qed.
+
+(* ------------------------------------------------ values: parse (to_json v) *)
+Definition sep (rest : bytes) : Prop :=
+  match rest with
+  | [] => True
+  | c :: _ => c = 44%N \/ c = 93%N \/ c = 125%N
+  end.
+
+Lemma sep_num_end rest : sep rest -> num_end rest.
+Proof. destruct rest as [|c r]; [trivial|]. intros [H|[H|H]]; subst; repeat split; reflexivity. Qed.
+Lemma sep_skip_ws rest : sep rest -> skip_ws rest = rest.
+Proof. destruct rest as [|c r]; [reflexivity|]. intros [H|[H|H]]; subst; reflexivity. Qed.
+
+(* first character of a value's text *)
+Definition startP (c : N) : Prop :=
+  c = 110%N \/ c = 116%N \/ c = 102%N \/ c = 34%N \/ c = 91%N \/ c = 123%N \/ c = 45%N \/ digitP c.
+
+Lemma start_skip_ws c t : startP c -> skip_ws (c :: t) = c :: t.
+Proof.
+  intro H. cbn [skip_ws]. assert (E : is_ws c = false).
+  { unfold is_ws. unfold startP, digitP in H.
+    repeat rewrite orb_false_iff. repeat split; apply N.eqb_neq; lia. }
+  rewrite E. reflexivity.
+Qed.
+Lemma start_not_close c t d : startP c -> d = 93%N \/ d = 125%N -> head_is d (c :: t) = None.
+Proof.
+  intros H D. cbn [head_is]. assert (E : (c =? d)%N = false) by (apply N.eqb_neq; unfold startP, digitP in H; lia).
+  rewrite E. reflexivity.
+Qed.
+
+Lemma parse_number_head s x : parse_number s = Some x -> exists c r, s = c :: r /\ (c = 45%N \/ digitP c).
+Proof.
+  destruct s as [|c r]; [discriminate|]. intro H. exists c, r. split; [reflexivity|].
+  unfold parse_number in H. destruct (c =? 45)%N eqn:E; [left; apply N.eqb_eq; exact E|right].
+  unfold parse_unsigned in H. cbn [take_digits] in H. destruct (is_digit c) eqn:D.
+  - unfold is_digit, in_rng in D. apply andb_prop in D as [D1 D2]. apply N.leb_le in D1, D2. unfold digitP. lia.
+  - discriminate H.
+Qed.
+
+Lemma parse_value_number f c t m e rest' : c = 45%N \/ digitP c ->
+  parse_number (c :: t) = Some (m, e, rest') -> parse_value (S f) (c :: t) = Some (JNum m e, rest').
+Proof.
+  intros H P. cbn [parse_value]. rewrite start_skip_ws by (unfold startP; tauto).
+  assert (E1 : (c =? 110)%N = false) by (apply N.eqb_neq; unfold digitP in H; lia).
+  assert (E2 : (c =? 116)%N = false) by (apply N.eqb_neq; unfold digitP in H; lia).
+  assert (E3 : (c =? 102)%N = false) by (apply N.eqb_neq; unfold digitP in H; lia).
+  assert (E4 : (c =? 34)%N = false) by (apply N.eqb_neq; unfold digitP in H; lia).
+  assert (E5 : (c =? 91)%N = false) by (apply N.eqb_neq; unfold digitP in H; lia).
+  assert (E6 : (c =? 123)%N = false) by (apply N.eqb_neq; unfold digitP in H; lia).
+  assert (E7 : (c =? 45)%N || is_digit c = true).
+  { destruct H as [H|H]; [subst; reflexivity|]. rewrite (is_digit_true c H). apply orb_true_r. }
+  rewrite E1, E2, E3, E4, E5, E6, E7, P. reflexivity.
+Qed.
+
+Lemma pv_quote f r : parse_value (S f) (34%N :: r) =
+  match parse_str (S (length r)) r with Some (t, r') => Some (JStr t, r') | None => None end.
+Proof. reflexivity. Qed.
+Lemma pv_arr f r : parse_value (S f) (91%N :: r) =
+  match head_is 93 (skip_ws r) with
+  | Some r' => Some (JArr [], r')
+  | None => match parse_elems f r with Some (l, r') => Some (JArr l, r') | None => None end
+  end.
+Proof. reflexivity. Qed.
+Lemma pv_obj f r : parse_value (S f) (123%N :: r) =
+  match head_is 125 (skip_ws r) with
+  | Some r' => Some (JObj [], r')
+  | None => match parse_members f r with Some (l, r') => Some (JObj l, r') | None => None end
+  end.
+Proof. reflexivity. Qed.
+Lemma pe_step f s : parse_elems (S f) s =
+  match parse_value f s with
+  | None => None
+  | Some (j, r) =>
+      match skip_ws r with
+      | [] => None
+      | c :: r' =>
+          if (c =? 44)%N then
+            match parse_elems f r' with Some (l, r'') => Some (j :: l, r'') | None => None end
+          else if (c =? 93)%N then Some ([j], r')
+          else None
+      end
+  end.
+Proof. reflexivity. Qed.
+Lemma pm_step f s : parse_members (S f) s =
+  match head_is 34 (skip_ws s) with
+  | None => None
+  | Some r =>
+      match parse_str (S (length r)) r with
+      | None => None
+      | Some (k, r1) =>
+          match head_is 58 (skip_ws r1) with
+          | None => None
+          | Some r2 =>
+              match parse_value f r2 with
+              | None => None
+              | Some (j, r3) =>
+                  match skip_ws r3 with
+                  | [] => None
+                  | c :: r4 =>
+                      if (c =? 44)%N then
+                        match parse_members f r4 with
+                        | Some (l, r5) => Some ((k, j) :: l, r5)
+                        | None => None
+                        end
+                      else if (c =? 125)%N then Some ([(k, j)], r4)
+                      else None
+                  end
+              end
+          end
+      end
+  end.
+Proof. reflexivity. Qed.
+
+Lemma parse_value_string f body t rest :
+  parse_str (S (length (body ++ quote :: rest))) (body ++ quote :: rest) = Some (t, rest) ->
+  parse_value (S f) ((quote :: body ++ [quote]) ++ rest) = Some (JStr t, rest).
+Proof.
+  intro P. unfold quote in *. cbn [app]. rewrite <- app_assoc. cbn [app]. rewrite pv_quote, P. reflexivity.
+Qed.
+
+Lemma parse_value_plain f body rest : Forall plain body ->
+  parse_value (S f) ((quote :: body ++ [quote]) ++ rest) = Some (JStr body, rest).
+Proof. intro P. apply parse_value_string. apply parse_str_plain; [exact P|rewrite app_length; lia]. Qed.
+
+Fixpoint need (v : value) : nat :=
+  match v with
+  | VArr l => S (length l + fold_right (fun x n => Nat.max (need x) n) O l)
+  | VObj m => S (length m + fold_right (fun kv n => Nat.max (need (snd kv)) n) O m)
+  | _ => 1
+  end.
+
+Lemma need_pos v : (1 <= need v)%nat. Proof. destruct v; cbn; lia. Qed.
+
+Lemma need_arr_bound l x : In x l -> (need x <= fold_right (fun x n => Nat.max (need x) n) O l)%nat.
+Proof. induction l as [|y r IH]; [intros []|]. cbn [fold_right]. intros [H|H]; [subst; lia|specialize (IH H); lia]. Qed.
+Lemma need_obj_bound (m : list (bytes * value)) kv : In kv m ->
+  (need (snd kv) <= fold_right (fun kv n => Nat.max (need (snd kv)) n) O m)%nat.
+Proof. induction m as [|y r IH]; [intros []|]. cbn [fold_right]. intros [H|H]; [subst; lia|specialize (IH H); lia]. Qed.
+
+Section Main.
+  Variable ff : N -> bytes.
+  (* the oracle hypothesis on float text: a JSON number literal *)
+  Hypothesis ff_ok : forall b, f_finite b = true ->
+    exists m e, forall rest, num_end rest -> parse_number (ff b ++ rest) = Some (m, e, rest).
+
+  Definition good (v : value) : Prop :=
+    forall fuel rest, (need v <= fuel)%nat -> sep rest ->
+      parse_value fuel (to_json ff v ++ rest) = Some (jsonify ff v, rest).
+
+  Lemma to_json_start v : wfb v = true -> marshal_ok v = true -> exists c t, to_json ff v = c :: t /\ startP c.
+  Proof.
+    intros W Mk. destruct v; cbn [to_json].
+    - eexists; eexists; split; [reflexivity|unfold startP; tauto].
+    - destruct b; eexists; eexists; (split; [reflexivity|unfold startP; tauto]).
+    - unfold dec_Z. destruct (z <? 0); [eexists; eexists; split; [reflexivity|unfold startP; tauto]|].
+      destruct (dec_N_spec (Z.to_N z)) as (ds & E & Fd & Ne & _). rewrite E.
+      destruct ds as [|d ds']; [congruence|]. exists d, ds'. split; [reflexivity|].
+      inversion Fd; subst. unfold startP; tauto.
+    - cbn [marshal_ok] in Mk. destruct (ff_ok bits Mk) as (m & e & P). specialize (P [] I).
+      apply parse_number_head in P as (c & r & E & H). rewrite app_nil_r in E. exists c, r. split; [exact E|].
+      unfold startP; tauto.
+    - eexists; eexists; split; [reflexivity|unfold startP; tauto].
+    - eexists; eexists; split; [reflexivity|unfold startP; tauto].
+    - eexists; eexists; split; [reflexivity|unfold startP; tauto].
+    - eexists; eexists; split; [reflexivity|unfold startP; tauto].
+    - eexists; eexists; split; [reflexivity|unfold startP; tauto].
+  Qed.
+
+  Lemma parse_elems_list l : forall M f rest, l <> [] ->
+    Forall (fun x => (need x <= M)%nat /\ good x /\ wfb x = true /\ marshal_ok x = true) l ->
+    (length l + M <= f)%nat -> sep rest ->
+    parse_elems f (jjoin (map (to_json ff) l) ++ 93%N :: rest) = Some (map (jsonify ff) l, rest).
+  Proof.
+    induction l as [|x r IH]; intros M f rest NE F L Sp; [congruence|].
+    inversion F as [|? ? (Nx & Gx & Wx & Mx) Fr]; subst.
+    destruct f as [|f']; [cbn in L; lia|]. rewrite pe_step.
+    destruct r as [|y r'].
+    - cbn [map jjoin]. rewrite (Gx f' (93%N :: rest)); [|cbn in L; lia|cbn; tauto]. reflexivity.
+    - change (jjoin (map (to_json ff) (x :: y :: r'))) with (to_json ff x ++ 44%N :: jjoin (map (to_json ff) (y :: r'))).
+      rewrite <- app_assoc. cbn [app]. rewrite (Gx f' _); [|cbn in L; lia|cbn; tauto].
+      change (skip_ws (44%N :: jjoin (map (to_json ff) (y :: r')) ++ 93%N :: rest))
+        with (44%N :: jjoin (map (to_json ff) (y :: r')) ++ 93%N :: rest).
+      change (44 =? 44)%N with true. cbv iota.
+      rewrite (IH M f' rest); [reflexivity|discriminate|exact Fr|cbn in L |- *; lia|exact Sp].
+  Qed.
+
+  (* object members, sorted: t = (escaped key, (key, value)) *)
+  Definition tri (kv : bytes * value) : bytes * (bytes * value) := (esc_string (fst kv), kv).
+  Definition tenc (t : bytes * (bytes * value)) : bytes * bytes := (fst t, to_json ff (snd (snd t))).
+  Definition tjs (t : bytes * (bytes * value)) : bytes * (bytes * json) :=
+    (fst t, (coerce (fst (snd t)), jsonify ff (snd (snd t)))).
+
+  Lemma parse_members_list T : forall M f rest, T <> [] ->
+    Forall (fun t => fst t = esc_string (fst (snd t)) /\ (need (snd (snd t)) <= M)%nat /\ good (snd (snd t))
+                     /\ wfb (snd (snd t)) = true /\ marshal_ok (snd (snd t)) = true) T ->
+    (length T + M <= f)%nat -> sep rest ->
+    parse_members f (jjoin (map member_text (map tenc T)) ++ 125%N :: rest)
+    = Some (map (fun t => snd (tjs t)) T, rest).
+  Proof.
+    induction T as [|t r IH]; intros M f rest NE F L Sp; [congruence|].
+    inversion F as [|? ? (Ek & Nx & Gx & Wx & Mx) Fr]; subst.
+    destruct f as [|f']; [cbn in L; lia|].
+    destruct t as [ek [k v]]. cbn [fst snd] in *. subst ek.
+    assert (Step : forall tail, sep tail ->
+      parse_members (S f') (member_text (tenc (esc_string k, (k, v))) ++ tail)
+      = match skip_ws tail with
+        | [] => None
+        | c :: r4 =>
+            if (c =? 44)%N then
+              match parse_members f' r4 with
+              | Some (l, r5) => Some ((coerce k, jsonify ff v) :: l, r5)
+              | None => None
+              end
+            else if (c =? 125)%N then Some ([(coerce k, jsonify ff v)], r4) else None
+        end).
+    { intros tail St. rewrite pm_step. unfold member_text, tenc. cbn [fst snd].
+      change (skip_ws ((quote :: esc_string k ++ quote :: 58%N :: to_json ff v) ++ tail))
+        with ((quote :: esc_string k ++ quote :: 58%N :: to_json ff v) ++ tail).
+      change (head_is 34 ((quote :: esc_string k ++ quote :: 58%N :: to_json ff v) ++ tail))
+        with (Some ((esc_string k ++ quote :: 58%N :: to_json ff v) ++ tail)).
+      cbv iota. rewrite <- app_assoc. cbn [app]. rewrite parse_str_esc.
+      change (head_is 58 (skip_ws (58%N :: to_json ff v ++ tail))) with (Some (to_json ff v ++ tail)).
+      cbv iota. rewrite (Gx f' tail); [|cbn in L; lia|exact St]. reflexivity. }
+    destruct r as [|t2 r'].
+    - cbn [map jjoin]. rewrite Step by (cbn; tauto). reflexivity.
+    - change (jjoin (map member_text (map tenc ((esc_string k, (k, v)) :: t2 :: r'))))
+        with (member_text (tenc (esc_string k, (k, v))) ++ 44%N :: jjoin (map member_text (map tenc (t2 :: r')))).
+      rewrite <- app_assoc. cbn [app]. rewrite Step by (cbn; tauto).
+      change (skip_ws (44%N :: jjoin (map member_text (map tenc (t2 :: r'))) ++ 125%N :: rest))
+        with (44%N :: jjoin (map member_text (map tenc (t2 :: r'))) ++ 125%N :: rest).
+      change (44 =? 44)%N with true. cbv iota.
+      rewrite (IH M f' rest); [reflexivity|discriminate|exact Fr|cbn in L |- *; lia|exact Sp].
+  Qed.
+
+  Lemma jjoin_cons p r : jjoin (p :: r) = p ++ match r with [] => [] | _ => 44%N :: jjoin r end.
+  Proof. destruct r; cbn [jjoin]; [rewrite app_nil_r|]; reflexivity. Qed.
+
+  Lemma wfb_arr_elems l : wfb (VArr l) = true -> Forall (fun x => wfb x = true) l.
+  Proof. cbn [wfb]. intro H. apply Forall_forall. rewrite forallb_forall in H. exact H. Qed.
+  Lemma mok_arr_elems l : marshal_ok (VArr l) = true -> Forall (fun x => marshal_ok x = true) l.
+  Proof. cbn [marshal_ok]. intro H. apply Forall_forall. rewrite forallb_forall in H. exact H. Qed.
+  Lemma mok_obj_members m : marshal_ok (VObj m) = true -> Forall (fun kv => marshal_ok (snd kv) = true) m.
+  Proof. cbn [marshal_ok]. intro H. apply Forall_forall. rewrite forallb_forall in H. exact H. Qed.
+
+  Lemma sorted_enc m : isort mleb (map (fun kv => (esc_string (fst kv), to_json ff (snd kv))) m)
+                       = map tenc (isort mleb (map tri m)).
+  Proof.
+    rewrite (map_isort (@mleb (bytes * value)) (@mleb bytes) tenc) by reflexivity.
+    rewrite map_map. reflexivity.
+  Qed.
+  Lemma sorted_js m :
+    isort mleb (map (fun kv => (esc_string (fst kv), (coerce (fst kv), jsonify ff (snd kv)))) m)
+    = map tjs (isort mleb (map tri m)).
+  Proof.
+    rewrite (map_isort (@mleb (bytes * value)) (@mleb (bytes * json)) tjs) by reflexivity.
+    rewrite map_map. reflexivity.
+  Qed.
+
+  Lemma all_good : forall v, wfb v = true -> marshal_ok v = true -> good v.
+  Proof.
+    induction v as [|b|z|b|s|sec n o|l IH|m IH|b] using value_ind'; intros W Mk fuel rest Lf Sp;
+      (destruct fuel as [|f]; [pose proof (need_pos (VArr [])); cbn in Lf; lia|]).
+    - reflexivity.
+    - destruct b; reflexivity.
+    - pose proof (parse_number_dec_Z z rest (sep_num_end rest Sp)) as P.
+      destruct (parse_number_head _ _ P) as (c & r & E & H). cbn [to_json jsonify]. rewrite E in *.
+      apply parse_value_number; assumption.
+    - cbn [marshal_ok] in Mk. destruct (ff_ok b Mk) as (mm & e & P).
+      pose proof (P rest (sep_num_end rest Sp)) as P1. pose proof (P [] I) as P0. rewrite app_nil_r in P0.
+      cbn [to_json jsonify]. rewrite P0.
+      destruct (parse_number_head _ _ P1) as (c & r & E & H). rewrite E in *.
+      apply parse_value_number; assumption.
+    - cbn [to_json jsonify]. unfold json_string. apply parse_value_string. apply parse_str_esc.
+    - cbn [to_json jsonify]. apply parse_value_plain, plain_date.
+    - (* arrays *)
+      cbn [to_json jsonify]. cbn [app]. rewrite <- app_assoc. cbn [app]. rewrite pv_arr.
+      destruct l as [|x r].
+      + reflexivity.
+      + pose proof (wfb_arr_elems _ W) as Wl. pose proof (mok_arr_elems _ Mk) as Ml.
+        inversion Wl as [|? ? Wx _]; inversion Ml as [|? ? Mx _]; subst.
+        destruct (to_json_start x Wx Mx) as (c & t & E & St).
+        assert (Hd : exists t', jjoin (map (to_json ff) (x :: r)) ++ 93%N :: rest = c :: t').
+        { cbn [map]. rewrite jjoin_cons, E. eexists. cbn [app]. reflexivity. }
+        destruct Hd as (t' & Hd). rewrite Hd, (start_skip_ws c t' St), (start_not_close c t' 93%N St) by tauto.
+        rewrite <- Hd.
+        rewrite (parse_elems_list (x :: r) (fold_right (fun x n => Nat.max (need x) n) O (x :: r)) f rest).
+        * reflexivity.
+        * discriminate.
+        * apply Forall_forall. intros y Hy. rewrite Forall_forall in IH, Wl, Ml.
+          split; [apply need_arr_bound; exact Hy|]. split; [apply IH; [exact Hy|apply Wl; exact Hy|apply Ml; exact Hy]|].
+          split; [apply Wl; exact Hy|apply Ml; exact Hy].
+        * cbn [need] in Lf. lia.
+        * exact Sp.
+    - (* objects *)
+      cbn [to_json jsonify]. rewrite sorted_enc, sorted_js. cbn [app]. rewrite <- app_assoc. cbn [app]. rewrite pv_obj.
+      pose proof (isort_perm (@mleb (bytes * value)) (map tri m)) as Pm.
+      destruct (isort mleb (map tri m)) as [|t0 T'] eqn:ET.
+      + reflexivity.
+      + assert (Hd : exists t', jjoin (map member_text (map tenc (t0 :: T'))) ++ 125%N :: rest = quote :: t').
+        { cbn [map]. rewrite jjoin_cons. unfold member_text at 1. eexists. cbn [app]. reflexivity. }
+        destruct Hd as (t' & Hd). rewrite Hd.
+        change (skip_ws (quote :: t')) with (quote :: t'). change (head_is 125 (quote :: t')) with (@None bytes).
+        cbv iota. rewrite <- Hd.
+        rewrite (parse_members_list (t0 :: T') (fold_right (fun kv n => Nat.max (need (snd kv)) n) O m) f rest).
+        * rewrite map_map. reflexivity.
+        * discriminate.
+        * eapply Permutation_Forall; [exact Pm|]. apply Forall_forall. intros t Ht.
+          apply in_map_iff in Ht as (kv & Ekv & Hin). subst t. unfold tri; cbn [fst snd].
+          pose proof (wfb_obj_members m W) as Wm. pose proof (mok_obj_members m Mk) as Mm.
+          rewrite Forall_forall in IH, Wm, Mm.
+          split; [reflexivity|]. split; [apply need_obj_bound; exact Hin|].
+          split; [apply IH; [exact Hin|apply Wm; exact Hin|apply Mm; exact Hin]|].
+          split; [apply Wm; exact Hin|apply Mm; exact Hin].
+        * cbn [need] in Lf. apply Permutation_length in Pm. rewrite map_length in Pm. rewrite <- Pm. lia.
+        * exact Sp.
+    - cbn [to_json jsonify]. apply parse_value_plain, plain_b64.
+  Qed.
+End Main.
+
+(* ---------------------------------------- enough fuel: need v <= |to_json v| *)
+Lemma jjoin_length parts : length (jjoin parts) = (list_sum (map (@length N) parts) + pred (length parts))%nat.
+Proof.
+  induction parts as [|p r IH]; [reflexivity|]. destruct r as [|q r'].
+  - cbn. lia.
+  - change (jjoin (p :: q :: r')) with (p ++ 44%N :: jjoin (q :: r')). rewrite app_length. cbn [length] in *.
+    rewrite IH. cbn [map list_sum length Nat.pred]. Show. lia.
+Qed.
+
+Lemma list_sum_perm l l' : Permutation l l' -> list_sum l = list_sum l'.
+Proof. induction 1; cbn [list_sum]; lia. Qed.
+
+Section Fuel.
+  Variable ff : N -> bytes.
+  Hypothesis ff_ok : forall b, f_finite b = true ->
+    exists m e, forall rest, num_end rest -> parse_number (ff b ++ rest) = Some (m, e, rest).
+
+  Lemma need_le_length : forall v, wfb v = true -> marshal_ok v = true -> (need v <= length (to_json ff v))%nat.
+  Proof.
+    induction v as [|b|z|b|s|sec n o|l IH|m IH|b] using value_ind'; intros W Mk;
+      try (destruct (to_json_start ff ff_ok _ W Mk) as (c & t & E & _); rewrite E; cbn; lia).
+    - cbn [need to_json length]. rewrite app_length, jjoin_length, !map_length. cbn [length].
+      pose proof (wfb_arr_elems l W) as Wl. pose proof (mok_arr_elems l Mk) as Ml.
+      assert (B : (fold_right (fun x n => Nat.max (need x) n) O l <= list_sum (map (@length N) (map (to_json ff) l)))%nat).
+      { clear W Mk. induction l as [|x r IHr]; [cbn; lia|].
+        inversion IH as [|? ? Hx Hr]; inversion Wl; inversion Ml; subst.
+        cbn [fold_right map list_sum]. specialize (IHr Hr ltac:(assumption) ltac:(assumption)).
+        specialize (Hx ltac:(assumption) ltac:(assumption)). lia. }
+      destruct l; cbn [length pred] in *; lia.
+    - cbn [need to_json length]. rewrite app_length, jjoin_length, !map_length. cbn [length].
+      rewrite isort_length, map_length.
+      rewrite (list_sum_perm _ (map (@length N) (map member_text (map (fun kv => (esc_string (fst kv), to_json ff (snd kv))) m))))
+        by (apply Permutation_map, Permutation_map, Permutation_sym, isort_perm).
+      pose proof (wfb_obj_members m W) as Wm. pose proof (mok_obj_members m Mk) as Mm.
+      assert (B : (fold_right (fun kv n => Nat.max (need (snd kv)) n) O m
+                   <= list_sum (map (@length N) (map member_text (map (fun kv => (esc_string (fst kv), to_json ff (snd kv))) m))))%nat).
+      { clear W Mk. induction m as [|x r IHr]; [cbn; lia|].
+        inversion IH as [|? ? Hx Hr]; inversion Wm; inversion Mm; subst.
+        cbn [fold_right map list_sum]. specialize (IHr Hr ltac:(assumption) ltac:(assumption)).
+        specialize (Hx ltac:(assumption) ltac:(assumption)).
+        unfold member_text at 1. cbn [fst snd length]. rewrite app_length. cbn [length]. lia. }
+      destruct m; cbn [length pred] in *; lia.
+  Qed.
+
+  (* the bytes the serializer writes are a complete JSON text (RFC 8259 grammar,
+     valid UTF-8), and a reader gets [jsonify v] back *)
+  Lemma json_parse_back v : wfb v = true -> marshal_ok v = true ->
+    parse_json (to_json ff v) = Some (jsonify ff v).
+  Proof.
+    intros W Mk. unfold parse_json.
+    pose proof (all_good ff ff_ok v W Mk (S (length (to_json ff v))) [] ltac:(pose proof (need_le_length v W Mk); lia) I) as G.
+    rewrite app_nil_r in G. rewrite G. reflexivity.
+  Qed.
+
+  Lemma json_valid_all v : wfb v = true -> marshal_ok v = true -> json_valid (to_json ff v) = true.
+  Proof. intros W Mk. unfold json_valid. rewrite json_parse_back by assumption. reflexivity. Qed.
+End Fuel.
